@@ -68,7 +68,8 @@ def snap_solver(s, p):
     best = None
     if p.log:
         b = r.bestTrials[0]
-        best = (tuple(np.asarray(b.point.floatVariables).tolist()), b.functionValues[0].value)
+        if hasattr(b.point, "floatVariables"):     # still the placeholder before this solver's first trial
+            best = (tuple(np.asarray(b.point.floatVariables).tolist()), b.functionValues[0].value)
     return dict(log=list(p.log), rec=rec, best=best, cnt=r.numberOfGlobalTrials, acc=r.solutionAccuracy)
 
 
@@ -80,12 +81,31 @@ def snap_solution(sol):
             sol.solutionAccuracy)
 
 
-class Actor:
-    """one solver with its operation list"""
+def _params(spec):
+    kw = dict(eps=spec["eps"], r=spec["r"], itersLimit=spec["limit"])
+    if spec.get("density") is not None:
+        kw["evolventDensity"] = spec["density"]
+    return SolverParameters(**kw)
 
-    def __init__(self, spec, hook=None):
+
+class Actor:
+    """one solver with its operation list.  spec['share'] says what the solvers of one execution have in
+    common (`env` is the per-execution pool of shared objects; a solo reference run gets a pool of its own):
+      own      nothing: own Problem, own SolverParameters                              (default)
+      params   one SolverParameters object handed to every solver
+      default  no parameters argument at all (the Solver's default argument)
+      problem  one Problem object handed to every solver (own parameters)"""
+
+    def __init__(self, spec, hook=None, env=None):
         self.spec = spec
-        self.p = P(spec["f"], spec["N"], spec["box"], hook)
+        self.env = env if env is not None else {}
+        self.share = spec.get("share", "own")
+        if self.share == "problem":
+            if "problem" not in self.env:
+                self.env["problem"] = P(spec["f"], spec["N"], spec["box"], hook)
+            self.p = self.env["problem"]
+        else:
+            self.p = P(spec["f"], spec["N"], spec["box"], hook)
         self.s = None
         self.sol = None
         self.prog = 0
@@ -93,8 +113,14 @@ class Actor:
     def do(self, op):
         with quiet():
             if op == "c":
-                self.s = Solver(self.p, SolverParameters(eps=self.spec["eps"], r=self.spec["r"],
-                                                         itersLimit=self.spec["limit"]))
+                if self.share == "params":
+                    if "params" not in self.env:
+                        self.env["params"] = _params(self.spec)
+                    self.s = Solver(self.p, self.env["params"])
+                elif self.share == "default":
+                    self.s = Solver(self.p)
+                else:
+                    self.s = Solver(self.p, _params(self.spec))
             elif op == "i":
                 self.s.DoGlobalIteration(1)
             elif op == "I":
@@ -106,7 +132,10 @@ class Actor:
         self.prog += 1
 
     def state(self):
-        return (snap_solver(self.s, self.p), snap_solution(self.sol))
+        st = snap_solver(self.s, self.p)
+        if st is not None and self.share == "problem":
+            st["log"] = None      # the shared Problem's log interleaves by construction; everything else must agree
+        return (st, snap_solution(self.sol))
 
 
 def solo(spec, ops):
@@ -144,7 +173,8 @@ def merge_task(task):
     alternations = 0
     for tail in sched.merges([len(ops) - (1 if i == first else 0) for i in range(n)]):
         order = (first,) + tail
-        actors = [Actor(sp) for sp in specs]
+        env = {}
+        actors = [Actor(sp, env=env) for sp in specs]
         bad = None
         for step, w in enumerate(order):
             actors[w].do(ops[actors[w].prog])
@@ -170,7 +200,8 @@ def merge_task(task):
 def replay_merge(rec):
     specs, ops, order = rec["specs"], rec["ops"], rec["order"]
     refs = [solo(sp, ops) for sp in specs]
-    actors = [Actor(sp) for sp in specs]
+    env = {}
+    actors = [Actor(sp, env=env) for sp in specs]
     for step, w in enumerate(order):
         actors[w].do(ops[actors[w].prog])
         for j, a in enumerate(actors):
@@ -302,6 +333,30 @@ def run(ctx):
         sp3 = specs_for(N, ("quad0", "mono", "const"))
         for first in range(3):
             tasks.append(dict(specs=sp3, ops=["c", "i", "S"] if not th else ["c", "i", "S", "r"], first=first))
+    # what the solvers of one execution may legitimately have in common: one SolverParameters object, the default
+    # parameters argument, one Problem object; dimensions 5/6 next to 2 so that a per-dimension adjustment of a
+    # shared object would show
+    def shared(share, dims, fs, ops, density=None, limit=8, eps=0.05):
+        sp = []
+        for k, (n_, f) in enumerate(zip(dims, fs)):
+            sp.append(dict(f=f, N=n_, box="B1" if share != "problem" else "B0", r=2.0, eps=eps, limit=limit, share=share,
+                           density=density))
+        if share == "problem":
+            sp = [dict(sp[0]) for _ in dims]
+        return [dict(specs=sp, ops=ops, first=first) for first in range(len(dims))]
+    for dims in ((2, 1), (5, 2), (2, 5)) + (((1, 3), (3, 3)) if th else ()):
+        for dens in (None, 12):
+            tasks += shared("params", dims, ("quad0", "mono"), ["c", "i", "i", "S", "r"], density=dens)
+    for dims in ((2, 1), (6, 2), (2, 6)):
+        tasks += shared("default", dims, ("mono", "quad0"), ["c", "i", "i", "i", "r"])
+    for N in (1, 2):
+        tasks += shared("problem", (N, N), ("neg", "neg"), ["c", "i", "i", "S", "r"])
+    # same dimension, same box, same objective - only the configured density (or r) differs
+    for N in (2, 3):
+        for d0, d1 in ((4, 10), (10, 4)):
+            sp = [dict(f="mono", N=N, box="B1", r=2.0, eps=0.05, limit=8, density=d0),
+                  dict(f="mono", N=N, box="B1", r=2.0, eps=0.05, limit=8, density=d1)]
+            tasks += [dict(specs=sp, ops=["c", "i", "i", "S", "r"], first=first) for first in range(2)]
     merges = alt = 0
     outcomes = 0
     for t, (n, a, o, viol) in zip(tasks, pmap(merge_task, tasks)):
